@@ -42,8 +42,17 @@ Rvs(s) == [i \in 1..Len(s) |-> s[Len(s) + 1 - i]]
 Retyped(x) == IF TTypeOf(x) = T_I64 THEN Leaf("binary", <<1, 2, 3>>) ELSE Leaf("i64", <<1, 2, 3, 4>>)
 
 SeqOfSet(S) == SetToSeq(S)
-EvoSeq(w) ==
+\* unknown fields whose id lies BETWEEN known ids (so that the field behind them is delta-encoded on the compact protocol,
+\* which makes the reader's field-id context after the skip observable): id = (id of the next written field) - 1 where free
+BetweenTypes == {T_STRUCT, T_BOOL, T_LIST, T_MAP}
+Between(w, declared) ==
+  LET n == Len(w.fs)
+      ok(p) == LET cand == w.fs[p].id - 1 IN cand >= 1 /\ cand \notin declared /\ (p = 1 \/ cand > w.fs[p - 1].id)
+  IN SeqOfSet({[how |-> "add-between", w |-> Struct(InsAt(w.fs, p - 1, Fld(w.fs[p].id - 1, RepAny(t))))] : p \in {q \in 1..n : ok(q)}, t \in BetweenTypes})
+
+EvoSeq(w, declared) ==
   LET n == Len(w.fs) IN
+  Between(w, declared) \o
   SeqOfSet({[how |-> "add-first", w |-> Struct(InsAt(w.fs, 0, UnknownOf(t)))] : t \in UnkTypes})
   \o SeqOfSet({[how |-> "add-last", w |-> Struct(InsAt(w.fs, n, UnknownOf(t)))] : t \in UnkTypes})
   \o (IF n >= 2 THEN SeqOfSet({[how |-> "add-middle", w |-> Struct(InsAt(w.fs, 1, UnknownOf(t)))] : t \in UnkTypes}) ELSE <<>>)
@@ -81,7 +90,7 @@ CasesOfDef(sid, S, d) ==
   LET ty == [ref |-> d.name]
       vals == [v \in 1..3 |-> Val(S, ty, v - 1, 0)]
       base == [v \in 1..3 |-> Case(sid, S, d, "base", "v" \o ToString(v - 1), vals[v])]
-      evo == LET es == EvoSeq(vals[2]) IN [i \in 1..Len(es) |-> Case(sid, S, d, "evo", es[i].how, es[i].w)]
+      evo == LET es == EvoSeq(vals[2], {d.fields[q].id : q \in 1..Len(d.fields)}) IN [i \in 1..Len(es) |-> Case(sid, S, d, "evo", es[i].how, es[i].w)]
       dflt == IF d.d = "union" THEN <<>>
               ELSE <<[sid |-> sid, ty |-> d.name, kind |-> "dflt", how |-> "default", w |-> Struct(<<>>),
                       bin |-> <<0>>, binle |-> <<0>>, cs |-> <<0>>,
